@@ -17,7 +17,8 @@
 (*           FindLocNode, FindNode            -> FindLocNode / FindNode     *)
 (*           LookupSymbol                     -> DoLookup                   *)
 (*           PushSymbol / PopSymbol           -> DoPushV / DoPopV           *)
-(*           PushLocHandle / PopLocHandle     -> DoMacBegin / DoMacEnd      *)
+(*           MACRO_Processor / MACRO_Restorer, -> DoMacBegin / DeliverLine / *)
+(*           PushLocHandle / PopLocHandle        DoMacEnd                    *)
 (*           AssembleFile_InitPass/ExitPass   -> NextPass / ExitPass        *)
 (*         RunAll = the pass loop of AssembleFile                          *)
 (* Part 3  the declarative meaning: the rules of the manual                *)
@@ -29,27 +30,31 @@
 (* Section handles are those of the code: -1 = global, 0.. = index into    *)
 (* the section list, -2 = "no section given".                              *)
 (*                                                                         *)
-(* Named deviations of the pinned tree (kept, not idealised):              *)
-(*   PopVIntoConstant        PopSymbol() overwrites EQU constants/labels   *)
-(*   NamedTmpByLastGlobal    $$name gets hash(LastGlobSymbol) appended     *)
-(*                           instead of the documented counter             *)
-(*   EmptyMacroPopsOuter     MACRO_Restorer() pops a local-symbol handle  *)
-(*                           although an expansion without body lines      *)
-(*                           never pushed one: the enclosing expansion     *)
-(*                           loses its handle                              *)
+(* Named deviations of the pinned tree (kept, not idealised).  The first    *)
+(* three contradict the property; they are switchable (field devs of the   *)
+(* machine state: PINNED = the code as it is, {} = the code with the       *)
+(* proposed repairs) so that both machines can be model-checked:           *)
+(*   popv_const  (PopVIntoConstant)      PopSymbol() overwrites EQU         *)
+(*                           constants / labels                            *)
+(*   dd_same_name  (NamedTmpByLastGlobal)  $$name gets hash(LastGlobSymbol) *)
+(*                           appended instead of the documented counter    *)
+(*   empty_macro_nested  (EmptyMacroPopsOuter)  MACRO_Restorer() pops a    *)
+(*                           local-symbol handle although an expansion     *)
+(*                           without body lines never pushed one: the      *)
+(*                           enclosing expansion loses its handle          *)
+(* The others concern texts about which the manual says nothing:           *)
 (*   ForwardOverridesQualifier  FindNode(): a pending FORWARD replaces an  *)
 (*                           explicit [section] qualifier (pass 1)         *)
 (*   GlobalToSelf            GLOBAL x:PARENT0 enters x twice (double def)  *)
 (*   LoneMinusIsZero         "-" with no minus symbol before it is the     *)
 (*                           expression "minus nothing" = 0, not an error  *)
-(*   PP lists are consumed by the next definition only                     *)
+(*   a PUBLIC/GLOBAL/FORWARD entry is used up by the next definition only  *)
+(*   a stack that is not empty at the end of a pass is a warning           *)
 (***************************************************************************)
 EXTENDS Integers, Sequences, FiniteSets, TLC
 
 CONSTANTS LOCSYMSIGHT             \* asmpars.c #define LOCSYMSIGHT 3
 
-\* the deviations of the pinned tree that can be switched (field devs of the machine state): with PINNED the machine
-\* is the code as it is, with {} it is the code with the three proposed repairs
 PINNED == {"popv_const", "dd_same_name", "empty_macro_nested"}
 PopVIntoConstant(s) == "popv_const" \in s.devs
 NamedTmpByLastGlobal(s) == "dd_same_name" \in s.devs
